@@ -99,6 +99,7 @@ type regDesc struct {
 	Service  string       `json:"service"`
 	Mode     string       `json:"challenge_mode"`
 	Superset float64      `json:"superset_prob"`
+	Sloppy   float64      `json:"sloppy_challenge_prob"` // challenges that name another scope than the request needs, or none
 	Stubborn float64      `json:"stubborn_prob"`
 	Switch   bool         `json:"switches_realm"`
 }
@@ -174,6 +175,7 @@ func newConv(run *evid.Run, rng *rand.Rand) *conv {
 		}
 		d.Mode = []string{"bearer", "basic", "both", "none", "flip"}[weighted(rng, []int{78, 8, 5, 4, 5})]
 		d.Superset = []float64{0, 0, 0.2, 0.5}[rng.IntN(4)]
+		d.Sloppy = []float64{0, 0, 0, 0.4}[rng.IntN(4)]
 		if rng.IntN(20) == 0 {
 			d.Stubborn = 0.3
 		}
@@ -199,6 +201,14 @@ func newConv(run *evid.Run, rng *rand.Rand) *conv {
 			for _, a := range authsim.Atoms {
 				if rng.Float64() < dd.Superset {
 					set = set.Union(authsim.NewSet(a))
+				}
+			}
+			if dd.Sloppy > 0 && rng.Float64() < dd.Sloppy {
+				// a registry whose challenge says little about what the request needs: some other scope, or none
+				// (the scope parameter is optional); what the request needs is then the caller's to know
+				set = authsim.MaskSet(rng.IntN(1 << len(authsim.Atoms)))
+				if rng.IntN(3) == 0 {
+					set = authsim.NewSet()
 				}
 			}
 			bi := authsim.BearerInfo{Realm: dd.Realm, Service: dd.Service, HasService: dd.Service != ""}
@@ -448,6 +458,13 @@ func (cv *conv) judge(res *authsim.CallResult, shadow []cached, at time.Time, mo
 			cs := authsim.ParseSet(prev.Chal.Bearer.ScopeText)
 			if !t.Scope.Covers(cs) {
 				run.Violation("token-scope-insufficient/retry", fmt.Sprintf("the retry carries a token acquired in answer to the challenge, requested for %s, which does not cover the challenge's scope %s", t.Scope, cs), cv.witness(res, shadow, at, map[string]any{"token": t}))
+			}
+		} else if !(t.Call == res.ID && t.Seq > prev.Seq) {
+			// a retry that carries a token it already had (issued before the challenge, or in another call): it is
+			// reused from cache, so it has to cover what this request requires like any reused token
+			run.Count("judged_c_retry_from_cache", 1)
+			if !t.Scope.Covers(required) {
+				run.Violation("token-scope-insufficient/retry-from-cache", fmt.Sprintf("the retry carries a token from the cache (requested for %s in call %d), which does not cover the required scope %s", t.Scope, t.Call, required), cv.witness(res, shadow, at, map[string]any{"token": t}))
 			}
 		}
 	}
